@@ -5,6 +5,8 @@ package main
 // Case line:  <Helper> <ty> <args…>     (space separated; see lean/FpgoVerif/Model/C03.lean for the grammar)
 //   ty i|s|t = int / string / struct{A int; B string};  element tokens: 3, -1 | ~ab (~ = "") | 2~b
 //   slice nil | [e,e] | [e,e|h,h]  (h = hidden elements between len and cap)    map nil | {k:v,…}   fn f<k> | fnil
+//   ALIASED operands: `[e,e,e,e]#a:b` = backing[a:b] of ONE backing array shared by all operands of the case with the
+//   same backing text (prefix views, overlapping views, the same slice twice); `{k:v}#s` = the same map object
 // Observation: canonical rendering of the result (nil and empty not distinguished, maps sorted by key token,
 // Keys/Values sorted), `panic`; ` mutated` is appended when any input slice (up to cap) or input map changed;
 // ` aliased` when writing through a result that the doc comment calls new (Dedupe, DropEq, DropWhile, Flatten, Merge,
@@ -257,13 +259,49 @@ func c03ShowBool(b bool) string {
 
 // c03Inputs builds the inputs of one case and remembers a snapshot of each (slices up to cap, maps fully).
 type c03Inputs[T comparable] struct {
-	cd     c03Codec[T]
-	checks []func() bool
+	cd       c03Codec[T]
+	checks   []func() bool
+	backings map[string][]T      // shared backing arrays of `[…]#a:b` view operands, by backing text
+	maps     map[string]map[T]int // shared map objects of `{…}#s` operands, by text
+}
+
+// view returns backing[a:b] of the backing array shared by every operand of this case with the same backing text.
+func (in *c03Inputs[T]) view(tok string) []T {
+	p := strings.SplitN(tok, "#", 2)
+	bk := p[0]
+	r := strings.SplitN(p[1], ":", 2)
+	a, _ := strconv.Atoi(r[0])
+	b, _ := strconv.Atoi(r[1])
+	if in.backings == nil {
+		in.backings = map[string][]T{}
+	}
+	backing, ok := in.backings[bk]
+	if !ok {
+		cells := c03Csv(bk[1 : len(bk)-1])
+		backing = make([]T, len(cells))
+		for i, t := range cells {
+			backing[i] = in.cd.parse(t)
+		}
+		in.backings[bk] = backing
+		snap := append([]T(nil), backing...)
+		in.checks = append(in.checks, func() bool {
+			for i := range snap {
+				if backing[i] != snap[i] {
+					return false
+				}
+			}
+			return true
+		})
+	}
+	return backing[a:b]
 }
 
 func (in *c03Inputs[T]) slice(tok string) []T {
 	if tok == "nil" {
 		return nil
+	}
+	if strings.Contains(tok, "#") {
+		return in.view(tok)
 	}
 	inner := tok[1 : len(tok)-1]
 	p := strings.SplitN(inner, "|", 2)
@@ -297,6 +335,17 @@ func (in *c03Inputs[T]) slice(tok string) []T {
 }
 
 func (in *c03Inputs[T]) mapOf(tok string) map[T]int {
+	if strings.HasSuffix(tok, "#s") { // the very same map object for equal texts
+		if m, ok := in.maps[tok]; ok {
+			return m
+		}
+		m := in.mapOf(strings.TrimSuffix(tok, "#s"))
+		if in.maps == nil {
+			in.maps = map[string]map[T]int{}
+		}
+		in.maps[tok] = m
+		return m
+	}
 	if tok == "nil" {
 		return nil
 	}
@@ -703,6 +752,17 @@ func c03Variants(al c03Alpha, l []string) []string {
 	return v
 }
 
+// all views backing[a:b], 0 <= a <= b <= n, of the shared backing array written as `bk`
+func c03Views(bk string, n int) []string {
+	var v []string
+	for a := 0; a <= n; a++ {
+		for b := a; b <= n; b++ {
+			v = append(v, bk+"#"+strconv.Itoa(a)+":"+strconv.Itoa(b))
+		}
+	}
+	return v
+}
+
 func c03MapTok(rng *rand.Rand, keys []string, vals []int) string {
 	idx := rng.Perm(len(keys))
 	parts := make([]string, len(keys))
@@ -758,6 +818,11 @@ func c03Gen(tier string, rng *rand.Rand, emit func(string)) map[string]interface
 	}
 	itoa := strconv.Itoa
 	exhaustive := 0
+	aliased := 0
+	aliasLen := 3
+	if tier == "thorough" {
+		aliasLen = 4
+	}
 	for _, al := range c03Alphas {
 		lists := c03AllLists(al.letters, maxLen)
 		for _, l := range lists {
@@ -824,8 +889,35 @@ func c03Gen(tier string, rng *rand.Rand, emit func(string)) map[string]interface
 				}
 			}
 		}
+		// ALIASED operands: every pair of views of ONE shared backing array (prefix views, overlapping views with
+		// different starts, the very same slice twice, views with spare capacity that is the other operand's data)
+		al2 := aliasLen
+		if al.ty == "i" {
+			al2 = aliasLen + 1
+		}
+		for _, l := range c03AllLists(al.letters, al2) {
+			views := c03Views(c03Tok(l, nil), len(l))
+			for _, x := range views {
+				for _, y := range views {
+					out("IsEqual", al.ty, x, y)
+					out("Zip", al.ty, x, y)
+					out("Concat", al.ty, x, y)
+					out("Flatten", al.ty, x, y)
+					aliased += 4
+				}
+				out("Concat", al.ty, x, x, x)
+				out("Flatten", al.ty, x, x, x)
+				out("Concat", al.ty, x, "nil", x)
+				aliased += 3
+			}
+		}
 		// maps
 		maps := c03AllMaps(rng, al)
+		for _, m := range maps {
+			out("Merge", al.ty, m+"#s", m+"#s")
+			out("IsEqualMap", al.ty, m+"#s", m+"#s")
+			aliased += 2
+		}
 		for _, m := range maps {
 			out("Keys", al.ty, m)
 			out("Values", al.ty, m)
@@ -884,6 +976,14 @@ func c03Gen(tier string, rng *rand.Rand, emit func(string)) map[string]interface
 		}
 		return l, c03Tok(l, nil)
 	}
+	randView := func(l []string) string {
+		a := rng.Intn(len(l) + 1)
+		b := a + rng.Intn(len(l)-a+1)
+		if rng.Intn(3) == 0 {
+			a = 0 // prefix views
+		}
+		return c03Tok(l, nil) + "#" + itoa(a) + ":" + itoa(b)
+	}
 	randMap := func(al c03Alpha) string {
 		if rng.Intn(12) == 0 {
 			return "nil"
@@ -932,6 +1032,14 @@ func c03Gen(tier string, rng *rand.Rand, emit func(string)) map[string]interface
 			if h == "Concat" {
 				args = append([]string{tok}, args...)
 			}
+			if rng.Intn(3) == 0 && len(l) > 0 { // operands that are views of one shared backing array
+				for j := range args {
+					if rng.Intn(2) == 0 {
+						args[j] = randView(l)
+					}
+				}
+				aliased++
+			}
 			out(h, al.ty, args...)
 		case "Distinct", "Dedupe", "Head", "Tail", "Reverse", "IsDistinct", "DuplicateSlice":
 			out(h, al.ty, tok)
@@ -941,8 +1049,12 @@ func c03Gen(tier string, rng *rand.Rand, emit func(string)) map[string]interface
 			out(h, al.ty, k, tok)
 		case "Zip", "IsEqual":
 			_, t2 := randList(al, 24)
-			if rng.Intn(3) == 0 { // equal contents, different storage
+			switch rng.Intn(4) {
+			case 0: // equal contents, different storage
 				t2 = c03Tok(l, nil)
+			case 1: // two views of one shared backing array
+				tok, t2 = randView(l), randView(l)
+				aliased++
 			}
 			out(h, al.ty, tok, t2)
 		case "Range":
@@ -957,8 +1069,15 @@ func c03Gen(tier string, rng *rand.Rand, emit func(string)) map[string]interface
 		case "Merge", "IsEqualMap":
 			m1 := randMap(al)
 			m2 := randMap(al)
-			if rng.Intn(3) == 0 {
+			switch rng.Intn(4) {
+			case 0:
 				m2 = m1
+			case 1: // the very same map object twice
+				if m1 != "nil" {
+					m1 += "#s"
+					m2 = m1
+					aliased++
+				}
 			}
 			out(h, al.ty, m1, m2)
 		case "Min", "Max", "MinMax":
@@ -972,7 +1091,10 @@ func c03Gen(tier string, rng *rand.Rand, emit func(string)) map[string]interface
 		"exhaustive": false,
 		"exhaustive_scope": fmt.Sprintf("all lists over a 3-letter alphabet up to length %d for int/string/struct x {exact cap, 2 hidden cells, nil}; "+
 			"all counts in [-3,len+3]; all %d members of each function family (+nil predicate); all pairs of lists up to length %d; "+
-			"all maps over 3 keys x 2 values (+nil) and all pairs of them; Range lo,hi in [-3,4] x hop in {none,-3..7}", maxLen, c03FamilySize, pairLen),
+			"all maps over 3 keys x 2 values (+nil) and all pairs of them; Range lo,hi in [-3,4] x hop in {none,-3..7}; "+
+			"ALIASED operands: all pairs of views backing[a:b] of one shared array (lists up to length %d, int %d) for IsEqual/Zip/Concat/Flatten, "+
+			"same slice thrice, same map object twice for Merge/IsEqualMap", maxLen, c03FamilySize, pairLen, aliasLen, aliasLen+1),
+		"aliased_operand_cases": aliased,
 		"list_storage_variants": exhaustive, "structured_cases": structured, "random_cases": nRandom,
 		"random_list_lengths": lenHist, "per_helper": count,
 	}
